@@ -521,13 +521,29 @@ impl<'a> Run<'a> {
         let mut seen: BTreeSet<(R, Option<R>)> = BTreeSet::new();
         let mut reply = first;
         let mut pages = 0;
+        let mut deleted: Option<Vec<u8>> = None;
         loop {
             pages += 1;
             let (cursor, page) = match &reply { R::Arr(Some(xs)) if xs.len() == 2 => match (&xs[0], &xs[1]) { (R::Bulk(Some(cu)), R::Arr(Some(p))) => (cu.clone(), p.clone()), _ => { let a = exact_aspect(&name, &R::Arr(Some(vec![])), &reply); self.fail(format!("C01/{}/{}{}", name, if reply.is_err() { a } else { "reply-shape".into() }, suffix), format!("{} replied {} which is not [cursor, [items…]]", show_cmd(c), reply.show())); return; } },
                 other => { let a = if let R::Err(e) = other { format!("rejects-{}", slug_err(e)) } else { "reply-shape".to_string() }; self.fail(format!("C01/{}/{}{}", name, a, suffix), format!("{} replied {} which is not [cursor, [items…]]", show_cmd(c), other.show())); return; } };
             if pairs { if page.len() % 2 != 0 { self.fail(format!("C01/{}/reply-shape{}", name, suffix), format!("{}: odd number of elements in a page: {}", show_cmd(c), reply.show())); return; } for ch in page.chunks(2) { seen.insert((ch[0].clone(), Some(ch[1].clone()))); } }
-            else { for x in page { seen.insert((x, None)); } }
+            else {
+                if let Some(d) = &deleted { if page.iter().any(|x| matches!(x, R::Bulk(Some(k)) if k == d)) { self.fail(format!("C01/{}/page-shows-key-deleted-before-the-page-was-asked-for{}", name, suffix), format!("{}: page {} (cursor {}) shows key {} although DEL removed it after page 1 and before this page was asked for; the page is {}", show_cmd(c), pages, String::from_utf8_lossy(&cursor), crate::model::wire::show_bytes(d), reply.show())); return; } }
+                for x in page { seen.insert((x, None)); }
+            }
             if cursor == b"0" { break; }
+            // a page is computed from the keyspace as it is when the page is asked for: in every other multi-page iteration of the
+            // keyspace one key that no page has shown yet is deleted after the first page, and no later page may show it
+            if pages == 1 && key.is_none() && deleted.is_none() && (items.len() + seen.len()) % 2 == 0 {
+                if let Some(R::Bulk(Some(k))) = items.iter().map(|(a, _)| a.clone()).find(|a| !seen.contains(&(a.clone(), None))) {
+                    let del: Cmd = vec![b"DEL".to_vec(), k.clone()];
+                    let _ = self.model.exec(&del);
+                    let Some(r) = self.send(&del, Path::Generic) else { return };
+                    self.rep.log(self.trace, || format!("        {} -> {}   (between two pages)", show_cmd(&del), r.show()));
+                    self.rep.probe("scan_key_deleted_between_pages");
+                    deleted = Some(k);
+                }
+            }
             if pages >= 300 { self.fail(format!("C01/{}/iteration-does-not-end{}", name, suffix), format!("{}: cursor still {} after {} pages over {} elements", show_cmd(c), String::from_utf8_lossy(&cursor), pages, items.len())); return; }
             let mut next = c.clone(); next[cur_idx] = cursor;
             let Some(r) = self.send(&next, Path::Generic) else { return };
@@ -536,7 +552,7 @@ impl<'a> Run<'a> {
         }
         self.rep.probe("scan_full_iteration");
         if pages > 1 { self.rep.probe("scan_multi_page"); }
-        let want: BTreeSet<(R, Option<R>)> = items.iter().cloned().collect();
+        let want: BTreeSet<(R, Option<R>)> = items.iter().filter(|(a, _)| !matches!((a, &deleted), (R::Bulk(Some(k)), Some(d)) if k == d)).cloned().collect();
         if seen != want {
             let missing: Vec<String> = want.difference(&seen).map(|(a, _)| a.show()).collect();
             let extra: Vec<String> = seen.difference(&want).map(|(a, v)| format!("{}{}", a.show(), v.as_ref().map(|x| format!("={}", x.show())).unwrap_or_default())).collect();
